@@ -4,10 +4,7 @@
  * histories of any length (at these capacities).
  * In the put.grow units janet_cache_resize is replaced by its contract (sy_resize_contract), which units sc.resize.* prove
  * of the real function; everything else runs the real code, including the real findmem inside put / deinit / resize.
- *
- * KNOWN FAILURE (unit sc.put.cap2.stay, disabled in units/C01_symcache.json): from capacity 2, count 1, deleted 0
- * janet_symcache_put fills the cache completely (I6 lost); the next lookup of a new text aborts in findmem. Native
- * reproducer: harness/symcache_repro_cap2.c. */
+ */
 #include "symcache_common.h"
 
 #ifndef SY_CAP
@@ -17,7 +14,7 @@
 #define SY_NEWMAX 8
 #endif
 #ifndef SY_SIZE_MIN
-#define SY_SIZE_MIN 2
+#define SY_SIZE_MIN 4
 #endif
 #ifndef SY_SIZE_MAX
 #define SY_SIZE_MAX SY_NEWMAX
@@ -62,9 +59,7 @@ void h_findmem(void) {
   REACH("findmem returns");
   if (so < 0) REACH("findmem: text not live");
   if (so >= 0 && ri != (uint32_t) so) REACH("findmem: found entry moved forward into a tombstone");
-#if SY_CAP >= 4
   if (so >= 0 && ri != (uint32_t) so && ri > (uint32_t) so) REACH("findmem: found entry moved across the wrap-around");
-#endif
 }
 
 /* ---------------------------------------------------------------- janet_symbol_deinit
@@ -102,7 +97,8 @@ void h_deinit(void) {
 }
 
 /* ---------------------------------------------------------------- contract of janet_cache_resize
- *   requires I1..I4, newCapacity a power of two > cache_count
+ *   requires I1..I4, newCapacity a power of two >= 4 and > cache_count (its only caller janet_symcache_put asks for
+ *            max(4, janet_tablen(2*count+1)); a request for 2 slots - the code before commit 9ee9625 - violates it)
  *   ensures  a NEW exact block of newCapacity slots without tombstones; the same set of interned objects (identical
  *            pointers); cache_count unchanged, cache_deleted == 0; I2..I4; the old block freed */
 static uint32_t g_sy_resizes;
@@ -128,13 +124,13 @@ void sy_resize_contract(uint32_t newcap) {
   g_sy_resizes++;
   int ok = sy_decode(&o);
   __CPROVER_assert(ok && sy_wf_struct(&o), "C01 symcache resize precondition: cache well-formed (I1..I4)");
+  __CPROVER_assert(newcap >= SY_MINCAP, "C01 symcache resize precondition: the cache never shrinks below 4 slots (a cache of 2 slots would be filled completely by the second symbol)");
   __CPROVER_assert(sy_pow2(newcap) && newcap > o.count && newcap <= SY_NEWMAX, "C01 symcache resize precondition: new capacity is a power of two with room for every entry (and within the capacities units sc.resize.* cover)");
   __CPROVER_assert(sy_live(&o, sy_twin_t) != sy_twin, "C01 symcache harness: the extra object is not in the cache when a resize starts");
   const uint8_t **oldlive = malloc((SY_K + 1) * sizeof(const uint8_t *));
   __CPROVER_assume(oldlive != SY_NULLP);
   for (int t = 0; t <= SY_K; t++) oldlive[t] = sy_live(&o, t);
-  if (newcap == 2) sy_resize_model(2, oldlive);
-  else if (newcap == 4) sy_resize_model(4, oldlive);
+  if (newcap == 4) sy_resize_model(4, oldlive);
   else if (newcap == 8) sy_resize_model(8, oldlive);
   else if (newcap == 16) sy_resize_model(16, oldlive);
   else __CPROVER_assume(0);                                        /* excluded by the asserted precondition */
@@ -158,7 +154,7 @@ static void sy_resize_case(uint32_t newcap) {
   int g = sy_text();
   SY_FRAME(o, n, g, 0, "resize");
   REACH("resize returns");
-#if SY_SIZE_MAX > SY_CAP && SY_CAP >= 4
+#if SY_SIZE_MAX > SY_CAP
   if (newcap > SY_CAP && o.nlive >= 2 && o.ntomb > 0) REACH("resize grows a cache with several entries and tombstones");
 #endif
 #if SY_SIZE_MIN < SY_CAP
@@ -172,8 +168,7 @@ void h_resize(void) {
   __CPROVER_assume(ok0 && sy_wf(&o));
   uint32_t newcap = nd_u32();
   __CPROVER_assume(sy_pow2(newcap) && newcap > o.count && newcap >= SY_SIZE_MIN && newcap <= SY_SIZE_MAX);
-  if (newcap == 2) sy_resize_case(2);
-  else if (newcap == 4) sy_resize_case(4);
+  if (newcap == 4) sy_resize_case(4);
   else if (newcap == 8) sy_resize_case(8);
   else if (newcap == 16) sy_resize_case(16);
   else __CPROVER_assert(0, "C01 symcache resize unit: SY_SIZE_MAX <= 16");
@@ -196,9 +191,6 @@ void h_put(void) {
   ok0 = ok0 && sy_decode(&o);
 #endif
   __CPROVER_assume(ok0 && sy_wf(&o));
-#ifdef SY_PUT_COUNT0
-  __CPROVER_assume(o.count == 0);
-#endif
   int atlimit = (o.count + o.deleted) * 2 > SY_CAP;
 #ifdef SY_PUT_COUNT
   __CPROVER_assume(atlimit);
@@ -227,10 +219,13 @@ void h_put(void) {
   REACH("put after resize");
 #else
   __CPROVER_assert(n.cap == SY_CAP && n.deleted == o.deleted, "C01 symcache put below the load limit: capacity and cache_deleted unchanged");
-#if SY_CAP >= 4
   if (o.kind[sy_slot_of(&n, t)] == SY_DEL) REACH("put stores the new symbol in a tombstone");
   if (o.kind[sy_slot_of(&n, t)] == 0 && o.nlive > 0) REACH("put stores the new symbol in a NULL slot of a non-empty cache");
-#endif
+  /* the fullest a cache gets without a resize: capacity/2 + 1 entries (capacity 4: count 1 -> 2 -> 3), one slot must stay free */
+  if (n.count == SY_CAP / 2 + 1) {
+    __CPROVER_assert(n.nlive < SY_CAP, "C01 symcache put up to the load limit without resize: at least one slot stays free (I6)");
+    REACH("put fills the cache to capacity/2 + 1 entries without resize");
+  }
 #endif
 }
 
